@@ -2,21 +2,28 @@ import ScrutModel.Lemmas.UpdateRunExitFirst
 /-!
 # The written document is read with the same test configurations (the former hypothesis `SameConfigs`)
 
-`update` writes the inline configuration of a block as `" {" + text.trim_start() + "}"` (`configSuffix`), and
-the tokenizer reads exactly that text back (`writtenCfg`, `run_reread_cfg`).  `trim_start` drops Unicode
-`White_Space`; the YAML flow parser skips spaces and tabs only.  Where the dropped white space is spaces and
-tabs (`CfgBlankLed`, decidable) the configuration read back is the original one (`Yaml.parseFlow_skipWs`);
-otherwise it can be ANOTHER configuration: `{<U+00A0>output_stream: stderr}` is the unknown key
-`<U+00A0>output_stream` (ignored), written back as `{output_stream: stderr}` (witness: `UpdateRunWitness`).
+`update` writes the inline configuration of a block as `" {" + text.trim_start_matches([' ', '\t']) + "}"`
+(`configSuffix`, `blankStart`; fix 15b47d2), and the tokenizer reads exactly that text back (`writtenCfg`,
+`run_reread_cfg`).  The blanks and tabs dropped are exactly what the YAML flow parser skips behind `{`
+(`blankStart_eq_skipWs`), so the configuration read back is the original one (`Yaml.parseFlow_skipWs`,
+`inlineCfg_written`) -- for every document.  Until fix 15b47d2 `update` used `trim_start()`, which also drops
+Unicode `White_Space` that YAML reads as part of the first key: `{<U+00A0>output_stream: stderr}` is the unknown
+key `<U+00A0>output_stream` (ignored) and was written back as `{output_stream: stderr}`, another configuration
+(the former guard `CfgBlankLed`; regression witness: `UpdateRunWitness`, W5).
+
+A configuration text of white space only is written back as NO configuration (`config_text.trim().is_empty()`,
+Unicode `White_Space`).  If the original one is read at all it is the empty mapping (`parseFlow_white`: such a
+text holds no `:`), hence the same configuration again; `{<U+00A0>}` itself is a YAML error and such a document
+is never updated.
 -/
 namespace Scrut.UpdateRun
 open Scrut Scrut.TestRun Scrut.Markdown Scrut.Update Scrut.LineParser Scrut.GenLemmas Scrut.EscLemmas
 
-/-- guard of U4 (finding `C10:config-leading-white-space-changes-configuration`): the white space in front of
-the inline configuration of a scrut block -- which `update` drops with `trim_start`, Unicode `White_Space` -- is
-what the YAML parser skips there, spaces and tabs -/
-def CfgBlankLed (content : List Char) : Prop :=
-  ∀ c ∈ cfgsOf (docToks content), trimStart (joinNumbered c) = Yaml.skipWs (joinNumbered c)
+/-- what `update` drops in front of an inline configuration is what the YAML parser skips there -/
+theorem blankStart_eq_skipWs : ∀ (t : List Char), blankStart t = Yaml.skipWs t
+  | [] => rfl
+  | c :: r => by
+    simp only [blankStart, Yaml.skipWs, Yaml.isBlank, Bool.or_eq_true, decide_eq_true_eq, blankStart_eq_skipWs r]
 
 theorem testBlocks_cfg_mem : ∀ (toks : List Tok) (b : Numbered × List Markdown.Line), b ∈ testBlocks toks →
     b.1 ∈ cfgsOf toks
@@ -32,8 +39,6 @@ theorem testBlocks_cfg_mem : ∀ (toks : List Tok) (b : Numbered × List Markdow
     · rcases List.mem_cons.mp h with rfl | h
       · exact Or.inl rfl
       · exact Or.inr (testBlocks_cfg_mem r b h)
-
-instance (content : List Char) : Decidable (CfgBlankLed content) := by unfold CfgBlankLed; exact inferInstance
 
 theorem dropWhile_head_not {p : Char → Bool} : ∀ (l : List Char) (c : Char) (r : List Char),
     l.dropWhile p = c :: r → p c = false
@@ -75,25 +80,63 @@ theorem trimStart_nil_of_trim {t : Markdown.Line} (h : (trim t).isEmpty = true) 
 
 theorem parseFlow_empty : Yaml.parseFlow ['{', '}'] = .ok {} := by decide
 
-/-- **the configuration read back from the fence line `update` wrote is the original one**, provided the white
-space dropped is spaces and tabs -/
+/-- **a configuration of white space only that is read is the empty mapping** -/
+theorem parseFlow_white (t : List Char) (hw : ∀ x ∈ t, isWhite x = true) (c : Yaml.Cfg)
+    (h : Yaml.parseFlow ('{' :: (t ++ ['}'])) = .ok c) : c = {} := by
+  rw [← Yaml.parseFlow_skipWs] at h
+  cases hs : Yaml.skipWs t with
+  | nil =>
+    rw [hs, List.nil_append, parseFlow_empty] at h
+    cases h
+    rfl
+  | cons d r =>
+    exfalso
+    rw [hs] at h
+    have hmem : ∀ x ∈ d :: r, isWhite x = true := fun x hx => hw x (Yaml.mem_skipWs t x (by rw [hs]; exact hx))
+    have hd := hmem d (by simp)
+    have ha : Yaml.parseAst ('{' :: d :: (r ++ ['}'])) = none := by
+      apply Yaml.parseAst_no_colon d _ (Yaml.skipWs_head_nonblank t d r hs)
+      · intro e; rw [e] at hd; exact absurd hd (by decide)
+      · intro e; rw [e] at hd; exact absurd hd (by decide)
+      · intro hc
+        rcases List.mem_cons.mp hc with e | hc
+        · rw [← e] at hd; exact absurd hd (by decide)
+        · rcases List.mem_append.mp hc with hc | hc
+          · exact absurd (hmem ':' (List.mem_cons_of_mem _ hc)) (by decide)
+          · simp at hc
+    unfold Yaml.parseFlow at h
+    simp only [List.cons_append, ha] at h
+    split at h
+    · cases h
+    · split at h <;> cases h
+
+theorem all_white_of_trim {t : Markdown.Line} (h : (trim t).isEmpty = true) : ∀ x ∈ t, isWhite x = true :=
+  dropWhile_nil_all t (trimStart_nil_of_trim h)
+
+/-- **the configuration read back from the fence line `update` wrote is the original one**, provided the
+original one is read (no YAML error, inside the modelled fragment).  Needed for a text of Unicode white space
+only, which is written back as no configuration: `{<U+00A0>}` is a YAML error, no configuration is the empty
+one (`inlineCfg_white_unread`). -/
 theorem inlineCfg_written {cfg cfg' : Numbered} (hw : cfg'.map (·.2) = writtenCfg cfg)
-    (hg : trimStart (joinNumbered cfg) = Yaml.skipWs (joinNumbered cfg)) :
+    (hr : (inlineCfg (some (cfgOf cfg))).isSome = true) :
     inlineCfg (some (cfgOf cfg')) = inlineCfg (some (cfgOf cfg)) := by
   unfold writtenCfg at hw
   by_cases he : (trim (joinNumbered cfg)).isEmpty = true
   · simp only [he, if_true, List.map_eq_nil_iff] at hw
     subst hw
-    have hts := trimStart_nil_of_trim he
     by_cases hc : cfg.isEmpty = true
     · have : cfg = [] := by simpa using hc
       subst this; rfl
     · have hc' : cfg.isEmpty = false := by simpa using hc
       have e : cfgOf cfg = some (joinNumbered cfg) := by simp [cfgOf, hc']
-      rw [e]
+      rw [e] at hr ⊢
       show some {} = inlineCfg (some (some (joinNumbered cfg)))
-      simp only [inlineCfg]
-      rw [← Yaml.parseFlow_skipWs, ← hg, hts, List.nil_append, parseFlow_empty]
+      simp only [inlineCfg] at hr ⊢
+      cases hp : Yaml.parseFlow ('{' :: (joinNumbered cfg ++ ['}'])) with
+      | ok c => rw [parseFlow_white _ (all_white_of_trim he) c hp]
+      | error => simp [hp] at hr
+      | crash => simp [hp] at hr
+      | outside => simp [hp] at hr
   · have he' : (trim (joinNumbered cfg)).isEmpty = false := by simpa using he
     simp only [he', Bool.false_eq_true, if_false] at hw
     have hc' : cfg.isEmpty = false := by
@@ -104,12 +147,52 @@ theorem inlineCfg_written {cfg cfg' : Numbered} (hw : cfg'.map (·.2) = writtenC
     match cfg', hw with
     | [], hw => simp at hw
     | [a], hw =>
-      have ha : a.2 = trimStart (joinNumbered cfg) := by simpa using hw
+      have ha : a.2 = blankStart (joinNumbered cfg) := by simpa using hw
       have e' : cfgOf [a] = some a.2 := by simp [cfgOf, joinNumbered, LineParser.joinNl]
       rw [e, e', ha]
       simp only [inlineCfg]
-      rw [hg, Yaml.parseFlow_skipWs]
+      rw [blankStart_eq_skipWs, Yaml.parseFlow_skipWs]
     | _ :: _ :: _, hw => simp at hw
+
+/-- … and the hypothesis "the original configuration is read" is not needed where the text is not white space
+only -/
+theorem inlineCfg_written_nonwhite {cfg cfg' : Numbered} (hw : cfg'.map (·.2) = writtenCfg cfg)
+    (he : (trim (joinNumbered cfg)).isEmpty = false) :
+    inlineCfg (some (cfgOf cfg')) = inlineCfg (some (cfgOf cfg)) := by
+  unfold writtenCfg at hw
+  simp only [he, Bool.false_eq_true, if_false] at hw
+  have hc' : cfg.isEmpty = false := by
+    cases cfg with
+    | nil => simp [joinNumbered, LineParser.joinNl, trim, trimStart, trimEnd] at he
+    | cons a r => rfl
+  have e : cfgOf cfg = some (joinNumbered cfg) := by simp [cfgOf, hc']
+  match cfg', hw with
+  | [], hw => simp at hw
+  | [a], hw =>
+    have ha : a.2 = blankStart (joinNumbered cfg) := by simpa using hw
+    have e' : cfgOf [a] = some a.2 := by simp [cfgOf, joinNumbered, LineParser.joinNl]
+    rw [e, e', ha]
+    simp only [inlineCfg]
+    rw [blankStart_eq_skipWs, Yaml.parseFlow_skipWs]
+  | _ :: _ :: _, hw => simp at hw
+
+/-- the hypothesis of `inlineCfg_written` cannot be dropped: the configuration text `<U+00A0>` is a YAML error,
+and it is written back as no configuration, which is read -/
+theorem inlineCfg_white_unread :
+    writtenCfg [(0, ['\u00a0'])] = [] ∧ inlineCfg (some (cfgOf [(0, ['\u00a0'])])) = none ∧
+      inlineCfg (some (cfgOf [])) = some {} := by decide
+
+/-- a prepared test has a configuration that is read -/
+theorem prepareU_cfg_read {t : TestCase Markdown.Cfg} {u : UTest} (hu : prepareU t = .ok u) :
+    (inlineCfg t.config).isSome = true := by
+  unfold prepareU at hu
+  cases hp : prepare t with
+  | error e => simp [hp] at hu
+  | ok pt =>
+    unfold prepare at hp
+    cases hi : inlineCfg t.config with
+    | none => simp [hi] at hp
+    | some c => rfl
 
 /-- a test read with the same configuration and compilable expectation texts is prepared, with the same
 configuration -/
@@ -150,14 +233,14 @@ theorem pairs_of_forall {α β : Type} {R : α → β → Prop} :
 
 /-- **`SameConfigs`, discharged**: if the written document parses, it is read -- its front-matter is the
 harmless one, its expectation lines compile -- with the same test configurations as the original, test by test;
-under the guards of U4 and `CfgBlankLed` -/
+under the guards of U4 (the former guard `CfgBlankLed` is gone with fix 15b47d2) -/
 theorem sameConfigs_of_guard {isOther : Char → Bool} (hC : AsciiContract isOther) {content : List Char}
     {runs : List Ran} {text : List Char} {results : List Gen.UpdResult}
     (h : updateDocument isOther content runs = .updated text results)
     (hcr : NoStrayCR content) (hf : FrontClosed content)
     {p p' : Parsed} (hp : parseMarkdown parseEnv content = .ok p) (hp' : parseMarkdown parseEnv text = .ok p')
     (hcodes : ∀ r ∈ runs, 0 ≤ r.code ∧ r.code ≤ 255)
-    (hq : QuantFree content results) (hcb : CfgBlankLed content) : SameConfigs content text := by
+    (hq : QuantFree content results) : SameConfigs content text := by
   obtain ⟨tests, ht⟩ := docTests_of_result isOther content runs (Or.inr ⟨text, results, h⟩)
   obtain ⟨p0, hp0, hharm, hprep⟩ := docTests_spec ht
   rw [hp] at hp0
@@ -184,7 +267,9 @@ theorem sameConfigs_of_guard {isOther : Char → Bool} (hC : AsciiContract isOth
       exact h11
     have hi : inlineCfg t'.config = inlineCfg t.config := by
       rw [c4, htc]
-      exact inlineCfg_written ha.configRead (hcb b.1 (testBlocks_cfg_mem _ b ha.blockMem))
+      refine inlineCfg_written ha.configRead ?_
+      rw [← htc]
+      exact prepareU_cfg_read ha.prepared
     obtain ⟨u', hu', hcfg'⟩ := prepareU_ok_of ha.prepared hi (by rw [c4, htc]; rfl) (by rw [c2]; exact hne)
     exact ⟨u, u', huu, hu', hcfg'⟩
   obtain ⟨tests', hpairs⟩ := pairs_of_forall (R := fun t u => prepareU t = .ok u) p'.tests (by
@@ -222,8 +307,8 @@ theorem run_idempotent_guarded {isOther : Char → Bool} (hC : AsciiContract isO
     (hcr : NoStrayCR content) (hf : FrontClosed content)
     {p p' : Parsed} (hp : parseMarkdown parseEnv content = .ok p) (hp' : parseMarkdown parseEnv text = .ok p')
     (hcodes : ∀ r ∈ runs, 0 ≤ r.code ∧ r.code ≤ 255)
-    (hq : QuantFree content results) (hcb : CfgBlankLed content) :
+    (hq : QuantFree content results) :
     ∃ rs, updateDocument isOther text runs = .unchanged rs :=
-  run_idempotent_readback hC h hcr hf hp hcodes hq (sameConfigs_of_guard hC h hcr hf hp hp' hcodes hq hcb)
+  run_idempotent_readback hC h hcr hf hp hcodes hq (sameConfigs_of_guard hC h hcr hf hp hp' hcodes hq)
 
 end Scrut.UpdateRun
